@@ -25,7 +25,10 @@ type TNode struct {
 	// OwnWalk (kind 2 with children): the node is a user type that embeds the library's non-terminal
 	// node and brings its own Walk: it is a NonTerminalNode AND Walkable
 	OwnWalk bool `json:"ownWalk,omitempty"`
-	id      int
+	// Plain (kind 4): the user-defined node has no Walk of its own but shows its children through
+	// Children(): a NonTerminalNode that is not the library's type
+	Plain bool `json:"plain,omitempty"`
+	id    int
 }
 
 type C13Case struct {
@@ -73,7 +76,7 @@ func genTNode(t *rapid.T, depth int) *TNode {
 		return &TNode{Kind: 1}
 	}
 	if rapid.IntRange(0, 9).Draw(t, "block") == 0 {
-		n := &TNode{Kind: 4}
+		n := &TNode{Kind: 4, Plain: rapid.IntRange(0, 2).Draw(t, "plainBlock") == 0}
 		for i := rapid.IntRange(0, 3).Draw(t, "nk"); i > 0; i-- {
 			n.Kids = append(n.Kids, genTNode(t, depth-1))
 		}
@@ -251,6 +254,20 @@ func (w *walkNT) Walk(f func(n parsley.Node) bool) bool {
 	return false
 }
 
+// plainBlock is a user-defined node that implements parsley.NonTerminalNode (Children) and
+// StaticCheckable, but brings no Walk: the library has to walk its children itself.
+type plainBlock struct{ b *blockNode }
+
+func (p *plainBlock) Token() string            { return p.b.Token() }
+func (p *plainBlock) Schema() interface{}      { return p.b.Schema() }
+func (p *plainBlock) Pos() parsley.Pos         { return p.b.Pos() }
+func (p *plainBlock) ReaderPos() parsley.Pos   { return p.b.ReaderPos() }
+func (p *plainBlock) Children() []parsley.Node { return p.b.kids }
+func (p *plainBlock) Value(userCtx interface{}) (interface{}, parsley.Error) {
+	return nil, parsley.NewError(p.b.pos, parsley.ErrNoValue)
+}
+func (p *plainBlock) StaticCheck(userCtx interface{}) parsley.Error { return p.b.StaticCheck(userCtx) }
+
 // number assigns pre-order ids.
 func numberT(n *TNode, next *int) {
 	n.id = *next
@@ -275,6 +292,9 @@ func buildT(n *TNode, e *env13, pos *int) parsley.Node {
 		}
 		blk.rpos = parsley.Pos(*pos)
 		out = blk
+		if n.Plain {
+			out = &plainBlock{blk}
+		}
 	default:
 		start := *pos
 		var kids []parsley.Node
@@ -495,10 +515,27 @@ func checkC13(ci interface{}, st *Stats) (err error) {
 		}
 		e.log = nil
 		var cerr error
+		before := map[int]string{}
+		for _, n := range post {
+			if b := e.built[n.id]; b != nil && (n.Kind == 2 || n.Kind == 4) {
+				before[n.id] = fmt.Sprint(b.Schema())
+			}
+		}
 		if viaParse != nil {
 			cerr = viaParse()
 		} else if pe := parsley.StaticCheck(nil, root); pe != nil {
 			cerr = pe
+		}
+		// the check stops at the first error: the failing node and everything after it keep the schema
+		// they had (nothing from a failed checker is recorded, nothing recorded earlier is erased)
+		if viaParse == nil {
+			for _, n := range post {
+				if b := e.built[n.id]; b != nil && aborted[n.id] && (n.Kind == 2 || n.Kind == 4) {
+					if now := fmt.Sprint(b.Schema()); now != before[n.id] {
+						return fmt.Errorf("%s: node %d was not checked successfully in this pass, yet its schema changed from %s to %s", label, n.id, before[n.id], now)
+					}
+				}
+			}
 		}
 		if (cerr != nil) != wantErr {
 			return fmt.Errorf("%s: error = %v, a checker failure was injected: %v", label, cerr, wantErr)
@@ -628,6 +665,8 @@ func checkC13(ci interface{}, st *Stats) (err error) {
 				parts[i] = gotShape(k)
 			}
 			return "BLOCK[" + strings.Join(parts, " ") + "]"
+		case *plainBlock:
+			return gotShape(v.b)
 		case parsley.NonTerminalNode: // the library's node or a user type embedding it
 			parts := make([]string, len(v.Children()))
 			for i, k := range v.Children() {
